@@ -1099,3 +1099,92 @@ def check_fence_bound(ctx: Ctx) -> None:
                 same = True
     ctx.ob("R-BOUND", f"{code_f.qual} :: scanned text == emitted text", same,
            "the fence length must be computed from the very text whose lines are emitted", where(code_f, sc))
+
+
+# ------------------------------------------------------------------------- per-block accumulators (typestate)
+def _must_assign_nodes(ctx: Ctx, fi: FuncInfo, key: str, depth: int = 0) -> set[Node]:
+    """Nodes of `fi` at which `self.<key>` is certainly (re)assigned: a direct store, a call of a self-method that assigns
+    it on every path to its end, or the entry of a `with self.cm(...)` whose context manager assigns it on every path to
+    its `yield`."""
+    prog = ctx.prog
+    flow = prog.flow(fi)
+    selfname = fi.params[0] if fi.params else "self"
+    out: set[Node] = set()
+    for n in flow.cfg.nodes:
+        if n.kind == "stmt" and isinstance(n.ast, (ast.Assign, ast.AnnAssign)):
+            tgs = n.ast.targets if isinstance(n.ast, ast.Assign) else [n.ast.target]
+            for tg in tgs:
+                for el in (tg.elts if isinstance(tg, (ast.Tuple, ast.List)) else [tg]):
+                    if chain_key(el) == f"{selfname}.{key}":
+                        out.add(n)
+        if depth >= 3:
+            continue
+        calls: list[ast.Call] = []
+        if n.kind == "with":
+            calls = [it.context_expr for it in n.ast.items if isinstance(it.context_expr, ast.Call)]
+        elif n.kind == "stmt" and isinstance(n.ast, ast.Expr) and isinstance(n.ast.value, ast.Call):
+            calls = [n.ast.value]
+        for c in calls:
+            t = prog.resolve_call(fi, c)
+            if not (isinstance(t, list) and len(t) == 1 and t[0].cls is fi.cls and t[0] is not fi and not isinstance(t[0].node, ast.Lambda)):
+                continue
+            callee = t[0]
+            cflow = prog.flow(callee)
+            inner = _must_assign_nodes(ctx, callee, key, depth + 1)
+            if n.kind == "with":
+                stops = [x for x in cflow.cfg.nodes if any(isinstance(y, (ast.Yield, ast.YieldFrom)) for ex in cflow.node_exprs(x) for y in ast.walk(ex))]
+            else:
+                stops = [cflow.cfg.exit]
+            if stops and inner and all(cflow.cfg.path_avoiding(cflow.cfg.entry, s, inner) is None for s in stops):
+                out.add(n)
+    return out
+
+
+def check_block_accumulators(ctx: Ctx) -> None:
+    """Renderer fields that accumulate the inline text of the current block (appended to by inline render methods, read by
+    their escaping decisions) must start empty in every block whose first token can be a block marker: the paragraph and
+    heading renderers reset them on *every path before* they render their children. Clearing only when a block ends leaves
+    the text of blocks that never clear (table cells) in front of the next paragraph."""
+    rm = get_model(ctx)
+    prog = ctx.prog
+    cls = ctx.repo.cls("flowmark.formats.flowmark_markdown:MarkdownNormalizer")
+    # accumulators: self.X += ... in a render method, and self.X read in a test / condition of a render method
+    aug: set[str] = set()
+    read_in_tests: set[str] = set()
+    inline_methods = {rm.methods[r.type_name].qual for r in rm.mm.registered if r.type_name in rm.methods and (r.kind == "inline" or r.type_name in INLINE_LIKE)}
+    for m in cls.methods.values():
+        if isinstance(m.node, ast.Lambda) or not m.params or m.qual not in inline_methods:
+            continue
+        selfname = m.params[0]
+        flow = prog.flow(m)
+        for n in flow.cfg.nodes:
+            if n.kind == "stmt" and isinstance(n.ast, ast.AugAssign) and isinstance(n.ast.op, ast.Add):
+                k = chain_key(n.ast.target)
+                if k and k.startswith(selfname + "."):
+                    aug.add(k.split(".", 1)[1])
+            if n.kind == "test":
+                sl = prog.slice(m, n.ast, n)
+                for a in sl.attrs():
+                    if a.startswith(selfname + "."):
+                        read_in_tests.add(a.split(".")[1])
+    accs = sorted(aug & read_in_tests)
+    ctx.note("per_block_accumulators", accs)
+    ctx.require("R-STATE", "per-block accumulator fields of the renderer", len(accs), 1)
+    for t in ("Paragraph", "Heading"):
+        m = rm.methods.get(t)
+        if m is None:
+            continue
+        flow = prog.flow(m)
+        rc = [n for n, c in flow.all_calls() if isinstance(c.func, ast.Attribute) and c.func.attr == "render_children"]
+        if not rc:
+            continue
+        for acc in accs:
+            resets = _must_assign_nodes(ctx, m, acc)
+            p = None
+            for n in rc:
+                p = p or flow.cfg.path_avoiding(flow.cfg.entry, n, resets)
+            ctx.ob("R-STATE", f"{m.qual} :: self.{acc} is reset before the children are rendered", p is None,
+                   f"`{acc}` collects the inline text of the block being rendered and decides escaping (`1\\.` keeps its backslash only at the "
+                   "start of the block): it must be cleared on entry of every paragraph / heading, else text left over from a block that "
+                   "never clears it (a table) makes the escape disappear and the paragraph re-parses as a list", where(m, m.node),
+                   [f"{x.lineno}: {x.text()}" for x in (p or [])])
